@@ -39,9 +39,9 @@ CHECKS = {
  "C09": dict(
    engine="E1-SimMPI",
    category="exploration",
-   text="Same simulated ranks and workload as C08, stopped after number_distributed_tags; the DistributedGraphPart contract (exactly-one producer, reads only what is available, no communication nodes in parts, sent names are outputs, received names are not), acyclicity of the global part graph, existence of one global order of communication rounds consistent with every rank's part chain, verify_distributed_partition accepting, and tag numbering agreement are evaluated by a reflective walker on what every rank returned, under seeded rank stalls and seeded fold order/bracketing of the commutative allreduce. Interpreter hash seeds differing between ranks are covered by C17's fleet (every rank's partition text must be identical in every interpreter).",
+   text="Same simulated ranks and workload as C08, stopped after number_distributed_tags; the DistributedGraphPart contract (exactly-one producer, reads only what is available, no communication nodes in parts, sent names are outputs, received names are not), acyclicity of the global part graph, existence of one global order of communication rounds consistent with every rank's part chain, verify_distributed_partition accepting, and tag numbering agreement are evaluated by a reflective walker on what every rank returned, under seeded rank stalls and seeded fold order/bracketing of the commutative allreduce. Two actor kinds: rank threads in one interpreter (bulk), and PROCESS ACTORS - every rank in its own child interpreter with its own PYTHONHASHSEED, heap prelude and allocation history (ASLR off), the orchestrator serving the collectives over pipes, reading from one chosen actor at a time and having a seeded rank fold the allreduce in a seeded order (about 2000 multi-rank programs per quick run).",
    design_ref="DESIGN.md section 5 (C09)",
-   note="Trusted: SimMPI collective semantics (mpi4py pickle-based methods); the reflective walker; invariant 5 is deliberately weaker than the implementation's exact batch numbers. Thread actors share one interpreter: per-rank hash seeds are not varied here (see C17).",
+   note="Trusted: SimMPI collective semantics (mpi4py pickle-based methods); the reflective walker; invariant 5 is deliberately weaker than the implementation's exact batch numbers. Process actors cover collectives only (the run stops after number_distributed_tags), which is all C09 needs.",
    technique="deterministic simulation: seeded collective schedules and reduction orders on a simulated MPI, invariants over all ranks' returned partitions"),
  "C10": dict(
    engine="E1-SimMPI",
